@@ -317,90 +317,7 @@ func c7Wrappers(c *Ctx) {
 		c.Check(okRet, "R7.4", fn.String(), "returns-own-type", fn.Pos(), "the derived core is again a %s", w.name)
 	}
 	// tee
-	mw := c.Method(CorePath, "multiCore", "With")
-	if c.Anchor("R7.4", "zapcore.multiCore.With", mw != nil) {
-		var inner *ssa.Call
-		for _, cl := range Calls(mw) {
-			if IsCallTo(cl, "(go.uber.org/zap/zapcore.Core).With") {
-				inner, _ = cl.(*ssa.Call)
-			}
-		}
-		ok := inner != nil
-		detail := ""
-		if ok {
-			v, over, why := LoopVisitsAll(mw, inner)
-			ok = v && over == mw.Params[0].Name() && Args(inner)[1] == ssa.Value(mw.Params[1])
-			detail = why
-			// stored into the same index of a fresh slice of the same length
-			stOK := false
-			AllInstrs(mw, func(i ssa.Instruction) {
-				if st, isSt := i.(*ssa.Store); isSt && Strip(st.Val) == ssa.Value(inner) {
-					if ia, isIA := st.Addr.(*ssa.IndexAddr); isIA {
-						_, fresh := Strip(ia.X).(*ssa.MakeSlice)
-						src, _ := Args(inner)[0].(*ssa.UnOp)
-						sameIdx := false
-						if src != nil {
-							if sa, ok := src.X.(*ssa.IndexAddr); ok {
-								sameIdx = sa.Index == ia.Index
-							}
-						}
-						stOK = fresh && sameIdx
-					}
-				}
-			})
-			if !stOK {
-				// ... or appended, in order, to a slice that starts empty and fresh and is what With returns
-				for _, cl := range Calls(mw) {
-					ap, isCall := cl.(*ssa.Call)
-					if !isCall || CallBuiltin(ap) != "append" {
-						continue
-					}
-					acc, isPhi := Strip(ap.Call.Args[0]).(*ssa.Phi)
-					if !isPhi {
-						continue
-					}
-					seedFresh, feeds := false, false
-					for _, e := range acc.Edges {
-						switch x := Strip(e).(type) {
-						case *ssa.MakeSlice:
-							if k, isC := ConstInt(x.Len); isC && k == 0 {
-								seedFresh = true
-							}
-						case *ssa.Call:
-							feeds = feeds || x == ap
-						}
-					}
-					carries := false
-					if sl, isSl := ap.Call.Args[1].(*ssa.Slice); isSl {
-						if va, isA := sl.X.(*ssa.Alloc); isA && va.Referrers() != nil {
-							for _, r := range *va.Referrers() {
-								if ia, isIA := r.(*ssa.IndexAddr); isIA && ia.Referrers() != nil {
-									for _, r2 := range *ia.Referrers() {
-										if st, isSt := r2.(*ssa.Store); isSt && Strip(st.Val) == ssa.Value(inner) {
-											carries = true
-										}
-									}
-								}
-							}
-						}
-					}
-					returned := false
-					for _, r := range Returns(mw) {
-						rv := Strip(RetVals(r)[0])
-						if mi, isMI := rv.(*ssa.MakeInterface); isMI {
-							rv = Strip(mi.X)
-						}
-						returned = returned || rv == ssa.Value(acc)
-					}
-					if seedFresh && feeds && carries && returned {
-						stOK = true
-					}
-				}
-			}
-			ok = ok && stOK
-		}
-		c.Check(ok, "R7.4", mw.String(), "every-branch-derived", mw.Pos(), "every branch i of the tee is replaced by branch[i].With(fields) in a fresh slice %s", detail)
-	}
+	c7TeeWith(c, "R7.4")
 	// observer
 	cw := c.Method("go.uber.org/zap/zaptest/observer", "contextObserver", "With")
 	co := c.Named("go.uber.org/zap/zaptest/observer", "contextObserver")
@@ -937,4 +854,144 @@ func c7AppendsAll(c *Ctx, rule string) {
 		}
 	}
 	c.Check(n >= 5, rule, "all functions", "capped-append/sites", token.NoPos, "%d appends onto slices owned by a receiver/argument object examined in all packages (each capped, or the owner's own growth)", n)
+}
+
+// c7TeeWith: by bounded concrete exploration of multiCore.With on a tee of two branches: the result is a new slice
+// whose element i is branch[i].With(fields) - for every i, whatever the branch currently enables (a branch that is
+// muted while loggers are derived must still carry their context when it is enabled later).
+func c7TeeWith(c *Ctx, rule string) {
+	mw := c.Method(CorePath, "multiCore", "With")
+	if !c.Anchor(rule, "zapcore.multiCore.With", mw != nil && len(mw.Params) == 2) {
+		return
+	}
+	const N = 2
+	recv, fields := mw.Params[0], mw.Params[1]
+	resolve := func(st *ConcState, v ssa.Value) ssa.Value {
+		for k := 0; k < 16 && v != nil; k++ {
+			switch x := v.(type) {
+			case *ssa.ChangeType:
+				v = x.X
+				continue
+			case *ssa.MakeInterface:
+				v = x.X
+				continue
+			}
+			nx := st.Step(v)
+			if nx == nil {
+				break
+			}
+			v = nx
+		}
+		return v
+	}
+	// branchIndex: v is branch[i] of the receiver
+	branchIndex := func(st *ConcState, v ssa.Value) (int64, bool) {
+		u, ok := resolve(st, v).(*ssa.UnOp)
+		if !ok || u.Op != token.MUL {
+			return 0, false
+		}
+		ia, ok := u.X.(*ssa.IndexAddr)
+		if !ok || resolve(st, ia.X) != ssa.Value(recv) {
+			return 0, false
+		}
+		return st.Int(ia.Index)
+	}
+	describe := func(st *ConcState, v ssa.Value) string {
+		r := resolve(st, v)
+		if cl, ok := r.(*ssa.Call); ok && cl.Call.IsInvoke() && cl.Call.Method.Name() == "With" {
+			if i, ok := branchIndex(st, cl.Call.Value); ok && len(cl.Call.Args) == 1 && resolve(st, cl.Call.Args[0]) == ssa.Value(fields) {
+				return "with(" + itoa(int(i)) + ")"
+			}
+			return "with(?)"
+		}
+		if i, ok := branchIndex(st, v); ok {
+			return "branch(" + itoa(int(i)) + ") itself"
+		}
+		return "other(" + st.Desc(v) + ")"
+	}
+	cut := 0
+	seqs, trunc := ConcPaths(mw, ConcCfg{
+		MaxIter: N + 1, Cut: &cut,
+		SliceLen: func(p *ssa.Parameter) (int64, bool) { return N, p == recv },
+		Event: func(in ssa.Instruction, st *ConcState) string {
+			switch x := in.(type) {
+			case *ssa.Store:
+				ia, ok := x.Addr.(*ssa.IndexAddr)
+				if !ok {
+					return ""
+				}
+				if _, isCore := types.Unalias(x.Val.Type()).Underlying().(*types.Interface); !isCore {
+					return ""
+				}
+				if _, isArr := types.Unalias(deref(ia.X.Type())).Underlying().(*types.Array); isArr {
+					return "" // the backing array of a variadic append
+				}
+				if resolve(st, ia.X) == ssa.Value(recv) {
+					return "store-into-parent"
+				}
+				j := "?"
+				if k, ok := st.Int(ia.Index); ok {
+					j = itoa(int(k))
+				}
+				return "slot(" + j + ")=" + describe(st, x.Val)
+			case *ssa.Call:
+				if CallBuiltin(x) == "append" {
+					if sl, ok := types.Unalias(x.Type()).Underlying().(*types.Slice); ok {
+						if _, isCore := types.Unalias(sl.Elem()).Underlying().(*types.Interface); isCore {
+							_, elems := appendParts(x)
+							var out []string
+							for _, e := range elems {
+								out = append(out, describe(st, e))
+							}
+							return "app=" + strings.Join(out, ",")
+						}
+					}
+				}
+			case *ssa.Return:
+				r := resolve(st, x.Results[0])
+				if r == ssa.Value(recv) {
+					return "ret(receiver)"
+				}
+				return "ret(new)"
+			}
+			return ""
+		},
+	})
+	if trunc || len(seqs) == 0 {
+		c.Und(rule, mw.String(), "every-branch-derived", mw.Pos(), "path exploration incomplete (%d sequences)", len(seqs))
+		return
+	}
+	var bad []string
+	for _, sq := range seqs {
+		var got []string
+		ok := true
+		for _, t := range strings.Split(sq, " ; ") {
+			switch {
+			case strings.HasPrefix(t, "slot("):
+				// slot(j)=with(i): i == j
+				j := t[5:strings.Index(t, ")")]
+				if t != "slot("+j+")=with("+j+")" {
+					ok = false
+				}
+				got = append(got, j)
+			case strings.HasPrefix(t, "app="):
+				if t != "app=with("+itoa(len(got))+")" {
+					ok = false
+				}
+				got = append(got, itoa(len(got)))
+			case t == "store-into-parent" || t == "ret(receiver)":
+				ok = false
+			}
+		}
+		if ok && strings.Join(got, ",") != "0,1" {
+			ok = false
+		}
+		if !ok {
+			bad = append(bad, sq)
+		}
+	}
+	if len(bad) > 2 {
+		bad = append(bad[:2:2], "… "+itoa(len(bad)-2)+" more")
+	}
+	c.Check(len(bad) == 0, rule, mw.String(), "every-branch-derived", mw.Pos(), "over %d paths on a two-branch tee: the result is a new slice holding branch[0].With(fields), branch[1].With(fields) - on every path, whatever the branches currently enable: %v", len(seqs), bad)
 }
